@@ -10,7 +10,7 @@ BUILTINS = {"len", "max", "min", "abs", "int", "float", "bool", "list", "tuple",
             "enumerate", "any", "all", "hash", "id", "set", "isinstance", "tqdm", "sum", "zip", "str", "super",
             "dict", "print", "object"}
 
-SPEC_BUILTINS = {"dict_get", "dict_has", "same_seq", "set_same", "implies", "iff", "forall", "exists", "forall_int", "exists_int", "old", "typeis", "fresh",
+SPEC_BUILTINS = {"seq_is", "stim_name", "stim_targets", "stim_args", "stim_rargs", "dict_get", "dict_has", "same_seq", "set_same", "implies", "iff", "forall", "exists", "forall_int", "exists_int", "old", "typeis", "fresh",
                  "is_none", "ite", "subseq", "seq_concat", "seq_unit", "seq_empty", "same_class", "born_before_entry",
                  "let"}
 
@@ -193,6 +193,9 @@ class ExecExpr(ExecBase):
             if isinstance(node.op, ast.Not):
                 yield s, V("bool", z3.Not(self.truth(v)))
             elif isinstance(node.op, ast.USub):
+                if self.is_optint(v):
+                    self.oblige("safe", s, z3.Not(self.optint_is_none(v)), "negation of an Optional[int] that may be None", name=self.next_call_id("none-arith"))
+                    v = self.optint_val(v)
                 if v.kind == "bool":
                     v = V("int", z3.If(v.t, 1, 0))
                 yield s, V(v.kind, -v.t)
@@ -222,6 +225,10 @@ class ExecExpr(ExecBase):
             if self.is_seq(a) or self.is_seq(b):
                 ek = (a.kind[1] if self.is_symseq(a) else b.kind[1])
                 return self.concat(a, b, ek)
+        for x in (a, b):
+            if self.is_optint(x):
+                self.oblige("safe", st, z3.Not(self.optint_is_none(x)), "arithmetic on an Optional[int] that may be None (TypeError)",
+                            name=self.next_call_id("none-arith"))
         if isinstance(op, ast.Mult) and (isinstance(a, VList) or isinstance(b, VList)):
             raise EngineError("list repetition")
         ta, tb, k = self.num_coerce(a, b)
